@@ -261,6 +261,7 @@ impl vstd::std_specs::convert::TryFromSpecImpl<&TExpr> for u32 {
         'Program::insert_stmt': dict(props=['C06'], spec='ensures final(self).stmts@ == old(self).stmts@.push(stmt), final(self).version == old(self).version,     //@C06:statements-appended-in-order'),
         'AnnotatedStmt::new': dict(props=['C03', 'C06'], ret='r', spec='requires !(stmt is AnnotatedStmt),                          // the `panic!` of the body\nensures r.stmt == stmt, r.annotations == annotations,'),
         'implicit_cast_type': dict(props=['C08', 'C20'], ret='r', spec='ensures arith_common(*op, *ty1, *ty2, r),                                  //@C20,C08:arith-common-type'),
+        'GateOperand::to_texpr': dict(props=['C13', 'C06'], ret='r', spec='ensures r.ty == typ, r.expression == Expr::GateOperand(self),'),
         'TExpr::get_type': dict(props=['C08', 'C06'], ret='r', spec='ensures *r == self.ty,'),
         'Cast::get_type': dict(props=['C08'], ret='r', spec='ensures *r == self.typ,'),
         'Cast::to_expr': dict(props=['C08', 'C06'], ret='r', spec='ensures r == Expr::Cast(Box::new(self)),'),
@@ -302,7 +303,7 @@ impl vstd::std_specs::convert::TryFromSpecImpl<&TExpr> for u32 {
         &&& arith_common(op->ArithOp_0, left.ty, right.ty, t)
     }),                                                                                       //@C08:arith-operands-cast-to-common-type
     !(op is ArithOp) ==> r.expression->BinaryExpr_0.left == left && r.expression->BinaryExpr_0.right == right,'''),
-        'TryFrom<&TExpr> for u32::try_from': dict(props=['C09'], ret='r', rewrites=[('D8', '.map_err(|_| TryFromU32Error)', '.map_err(|_e| TryFromU32Error)')], spec='''ensures
+        'TryFrom<&TExpr> for u32::try_from': dict(props=['C09'], ret='r', d8=True, spec='''ensures
     // only a cast of a non-negative integer literal that fits u32 is a designator value
     match const_int_of(*value) {
         Some(n) => (n <= u32::MAX ==> r == Ok::<u32, TryFromU32Error>(n as u32)) && (n > u32::MAX ==> r is Err),
@@ -335,6 +336,10 @@ pub assume_specification<T: Clone, EE: Clone> [<Result<T, EE> as Clone>::clone] 
     zov = {}
     for fn in S2S_UNVERIFIED:
         zov[fn] = dict(trusted=True, note='closures / iterator adapters capturing `&mut Context`: not verified (havoc contract)')
+
+    for fn in ['qubit_list_to_asg_texpr', 'expression_list_to_asg_texpr', 'indexed_identifier_to_asg_type', 'block_expr_to_asg_stmt_list',
+               'block_expr_to_asg_type', 'block_or_stmt_to_asg_type', 'stmt_to_asg_stmt', 'expr_stmt_to_asg_stmt', 'bind_parameter_list', 'bind_typed_parameter_list']:
+        zov[fn]['spec'] = 'ensures ext(old(context).errs(), final(context).errs()),   // (assumed: diagnostics are only ever appended)'
     D3_OLD = """
         .arg_list()
         .map(|ex| expression_list_to_asg_texpr(ex.expression_list().unwrap(), context));"""
@@ -359,6 +364,90 @@ pub assume_specification<T: Clone, EE: Clone> [<Result<T, EE> as Clone>::clone] 
             tmp = tmp.replace(rw[1], rw[2])
         kw['rewrites'] = base_rw + panic_rewrites(fn, tmp)
         kw['ghost'] = list(kw.get('ghost', [])) + [(a, 'before', t) for f_, a, t in GHOST_ASSUMES if f_ == fn]
+    U.raw(open(__file__.replace('units/sema.py', 'contracts/sema.specs.rs')).read())
+    zov.setdefault('binary_op_to_asg_type', {}).update(dict(ret='r', props=['C06', 'C03'], spec='''
+ensures
+    // every operator maps to the graph operator of the same meaning
+    synast_op is ArithOp ==> r is ArithOp && arith_same(synast_op->ArithOp_0, r->ArithOp_0),                       //@C06:operator-identity
+    (synast_op is CmpOp && synast_op->CmpOp_0 is Eq && !synast_op->CmpOp_0->Eq_negated) ==> r is CmpOp && r->CmpOp_0 is Eq,    //@C06:operator-identity
+    (synast_op is CmpOp && synast_op->CmpOp_0 is Eq && synast_op->CmpOp_0->Eq_negated) ==> r is CmpOp && r->CmpOp_0 is Neq,    //@C06:operator-identity
+    synast_op is ConcatenationOp ==> r is ConcatenationOp,                                                          //@C06:operator-identity
+    (synast_op is PowerOp && !co_power_op(synast_op)) ==> r is PowerOp,                                             //@C06:operator-identity
+'''))
+    zov.setdefault('lookup_identifier', {}).update(dict(ret='r', props=['C07', 'C08', 'C13'], spec='''
+ensures
+    // an identifier has the id and the type of its symbol; an unresolved one is marked, typed
+    // undefined and reported exactly once
+    r.0 == lookup_id(*old(context), identifier.sp_string()), r.1 == lookup_type(*old(context), identifier.sp_string()),   //@C07,C08:identifier-has-symbol-type
+    final(context).errs() == old(context).errs() + undef_diag(*old(context), identifier.sp_string(), SemanticErrorKind::UndefVarError),   //@C07:undefined-reported-once
+    final(context).same_tables_but_trace(old(context)),
+'''))
+    zov.setdefault('gate_operand_to_asg_texpr', {}).update(dict(ret='r', props=['C13', 'C03'], spec='''
+ensures
+    ext(old(context).errs(), final(context).errs()),
+    gate_operand is HardwareQubit ==> r.ty == Type::HardwareQubit && final(context).errs() == old(context).errs(),
+    // a non-quantum symbol as gate / measure / reset operand is reported, a quantum one is not
+    gate_operand is Identifier ==> ({
+        let n = gate_operand->Identifier_0.sp_string();
+        let t = lookup_type(*old(context), n);
+        r.ty == t && final(context).errs() == old(context).errs() + undef_diag(*old(context), n, SemanticErrorKind::UndefVarError)
+                + cond1(!is_quantum_operand_type(t), SemanticErrorKind::IncompatibleTypesError)
+    }),                                                                                                              //@C13:operand-must-be-quantum
+'''))
+    zov.setdefault('get_ast_designator_expression', {}).update(dict(ret='r', props=['C09'], rewrites=[('D3', 'arg.and_then(|desg| desg.expr())', 'match arg { Some(desg) => desg.expr(), None => None }')],
+        spec='ensures r == des_expr(arg),'))
+    zov.setdefault('designator_to_asg', {}).update(dict(ret='r', props=['C09', 'C03'], spec='''
+ensures
+    ext(old(context).errs(), final(context).errs()),
+    // no designator: no width, no diagnostic
+    des_expr(designator) is None ==> r is None && final(context).errs() == old(context).errs(),
+    // an integer literal yields exactly its value (carve-out: values that do not fit u32)
+    des_int_literal(designator) is Some && !co_width_truncation(des_int_literal(designator)->Some_0)
+        ==> r == Some(des_int_literal(designator)->Some_0 as u32) && final(context).errs() == old(context).errs(),    //@C09:literal-width-exact
+    // any other literal is diagnosed and yields no width
+    (des_expr(designator) is Some && des_expr(designator)->Some_0 is Literal && des_int_literal(designator) is None)
+        ==> r is None && final(context).errs() == old(context).errs().push(SemanticErrorKind::ConstIntegerError),      //@C09:non-integer-width-diagnosed
+    // a const identifier yields its recorded value, or InvalidDesignatorError if that is not an integer fitting u32
+    (des_expr(designator) is Some && des_expr(designator)->Some_0 is Identifier) ==> ({
+        let n = des_expr(designator)->Some_0->Identifier_0.sp_string();
+        let c = *old(context);
+        (c.resolve(n) is Some && types::sp_is_const(c.resolve(n)->Some_0.1) && c.const_value(c.resolve(n)->Some_0.0) is Some) ==> (
+            match asg::const_int_of(c.const_value(c.resolve(n)->Some_0.0)->Some_0) {
+                Some(v) => if v <= u32::MAX { r == Some(v as u32) && final(context).errs() == c.errs() }
+                           else { final(context).errs() == c.errs().push(SemanticErrorKind::InvalidDesignatorError) },
+                None => final(context).errs() == c.errs().push(SemanticErrorKind::InvalidDesignatorError),
+            })
+    }),                                                                                                                //@C09:const-identifier-width
+    // KF C09-nonconst-designator-silent: a non-const identifier yields no width and NO diagnostic
+    (des_expr(designator) is Some && des_expr(designator)->Some_0 is Identifier && !co_nonconst_designator()) ==> ({
+        let n = des_expr(designator)->Some_0->Identifier_0.sp_string();
+        let c = *old(context);
+        (c.resolve(n) is Some && !types::sp_is_const(c.resolve(n)->Some_0.1)) ==> final(context).errs().len() > c.errs().len()
+    }),                                                                                                                //@C09:non-constant-width-diagnosed
+'''))
+    zov['gate_call_expr_to_asg_stmt'].update(dict(ret='r', props=['C13', 'C03', 'C06'], spec='''
+ensures
+    r is Some, r->Some_0 is GateCall,
+    r->Some_0->GateCall_0.modifiers == modifiers,                                                                     //@C06:modifiers-kept
+    // reported iff the number of parameters / qubits differs from the definition; non-gate callee reported
+    exists|mid: Context| gate_call_post(*old(context), mid, *final(context), gate_call_expr.sp_identifier()->Some_0.sp_string(),
+        r->Some_0->GateCall_0.name, opt_len(r->Some_0->GateCall_0.params), r->Some_0->GateCall_0.qubits@.len()),   //@C13:gate-call-arity-iff
+'''))
+    zov['gate_call_expr_to_asg_stmt']['ghost'] = [
+        ('let gate_id = gate_call_expr.identifier();', 'before', 'let ghost mid = *context;'),
+        ('Some(asg::Stmt::GateCall(asg::GateCall::new(', 'before', '''proof {
+    let name = gate_call_expr.sp_identifier()->Some_0.sp_string();
+    assert(gate_name@ == name);
+    assert(num_params == opt_len(param_list));
+    assert(gate_call_post(*old(context), mid, *context, name, symbol_result, opt_len(param_list), gate_operands@.len()));     //@C13:gate-call-arity-iff
+}'''),
+    ]
+    zov.setdefault('scalar_type_to_type', {}).update(dict(ret='r', props=['C09', 'C03'], spec='''
+ensures
+    ext(old(context).errs(), final(context).errs()),
+    // base type <-> keyword, const flag = argument, bit[n] / qubit[n] -> one-dimensional registers of length n
+    r == type_of(scalar_type.sp_kind(), written_width(r), isconst),                                                  //@C09:declared-type-as-written
+'''))
     zov.setdefault('literal_to_asg_texpr', {}).update(dict(ret='res', spec='ensures res is Some,'))
     zov.setdefault('paren_expr_to_asg_texpr', {}).update(dict(ret='res', spec='ensures res is Some,'))
     zov.setdefault('expr_to_asg_texpr', {}).update(dict(ret='res', spec='''
@@ -366,6 +455,16 @@ ensures
     // an expression that is present is always translated (never silently dropped)
     expr_maybe is Some ==> res is Some,                                                     //@C03,C06:expr-translated
 '''))
-    z.ingest(overrides=zov, skip=S2S_SKIP, only_kinds=('fn',), default=lambda q, sig: dict(props=P, nodecreases=True))
-    U.assumed_dep = ['AST accessors (%d on %d node types) are external_body WITHOUT postcondition: they may return anything' % (n_acc, n_nodes)]
+    for fn_, kw_ in zov.items():
+        if not kw_.get('trusted'):
+            kw_['ghost'] = [('{', 'after', 'broadcast use sema_lemmas;')] + list(kw_.get('ghost', []))
+    z.ingest(overrides=zov, skip=S2S_SKIP, only_kinds=('fn',), default=lambda q, sig: dict(props=P, nodecreases=True, ghost=[('{', 'after', 'broadcast use sema_lemmas;')]))
+    U.assumed_parser = (['%s::%s() returns Some — %s' % (k[0], k[1], v[1]) for k, v in sorted(ACC_SOME.items()) if v[0] == AP]
+                        + ['%s::%s(): %s — %s' % (k[0], k[1], v[1], v[2]) for k, v in sorted(ACC_CUSTOM.items())]
+                        + ['%s: arm `%s…` unreachable — %s' % (g[0], g[1][:40], g[3]) for g in PANIC_GUARDS if g[2] == AP])
+    U.assumed_dep = ['AST accessors (%d on %d node types) are external_body; they are functions of the (immutable) node (uninterpreted sp_<name>) and otherwise unconstrained' % (n_acc, n_nodes),
+                     'Context (symbol table, diagnostics, const values) is opaque with a ghost view; lookup_symbol / lookup_gate_symbol / new_binding carry the contracts proved in unit SYM',
+                     'the unverified analyser functions (closures capturing &mut Context) are assumed to only append diagnostics',
+                     'std: String::as_ref keeps the characters; Result::clone clones the payload of the same variant; derive(Clone/PartialEq/Debug) structural']
+    U.not_verified = ['syntax_to_semantics.rs: ' + ', '.join(sorted(S2S_UNVERIFIED)) + ', syntax_to_semantic, analyze_source, parse_* (generic SourceTrait plumbing)']
     return U
